@@ -69,6 +69,8 @@ def op_term(o, sc=None):
         return '(SetPool %s %s)' % (z(o[1]), PSTATE[o[2]])
     if k == 'ks':
         return '(SetKs %s)' % optz(o[1])
+    if k == 'shutdown':
+        return '(SetPool (-1) PShutdown)'      # the session is the pseudo-host -1 of the model's environment
     if k == 'page':
         a = (sc or {}).get('analytics')
         if sc and sc.get('target') is None and a and a.get('master') is not None:
